@@ -51,6 +51,13 @@ Proof.
   unfold close_events, ev_ks, pend_ks, q_ks. rewrite map_app, !map_map. reflexivity.
 Qed.
 
+Lemma pump_close_events_ks status nw p newl q :
+  ev_ks (pump_close_events status nw p newl q) = pend_ks p ++ (pend_ks newl ++ q_ks q).
+Proof.
+  unfold pump_close_events. rewrite ev_ks_app, close_events_ks. f_equal.
+  unfold ev_ks, pend_ks. rewrite map_map. reflexivity.
+Qed.
+
 Lemma expire_cnt nw p x :
   cnt (pend_ks p) x = (cnt (ev_ks (timeouts nw p)) x + cnt (pend_ks (alive nw p)) x)%nat.
 Proof. rewrite timeouts_ks. unfold pend_ks, alive. apply cnt_filter_split. Qed.
@@ -157,17 +164,18 @@ Section Facts.
                  (cnt (if (kind =? 1)%Z then [] else [k]) x + cnt (q_ks q') x)))%nat).
       { intros x. specialize (Hc x). unfold done_ks, open in Hc. rewrite Eq, q_ks_cons, !cnt_app in Hc. exact Hc. }
       clear Hc.
-      assert (Hp2 : forall x p1, cnt (pend_ks (if (kind =? 1)%Z then p1 else p1 ++ [(last_id s + 1, mk_entry k (now s + Z.max 0 t) [])])) x
-                        = (cnt (pend_ks p1) x + cnt (if (kind =? 1)%Z then [] else [k]) x)%nat).
-      { intros x p1. destruct (kind =? 1); [cbn [count_occ]; lia|].
-        unfold pend_ks. rewrite map_app, cnt_app. reflexivity. }
+      assert (Hnew : forall x, cnt (pend_ks (if (kind =? 1)%Z then [] else [(last_id s + 1, mk_entry k (now s + Z.max 0 t) [])])) x
+                        = cnt (if (kind =? 1)%Z then [] else [k]) x).
+      { intros x. destruct (kind =? 1); reflexivity. }
       destruct (kind =? 2) eqn:E2; cbn [fst].
       + constructor; cbn [set_closed submitted next_k closed pending queue done]; auto; try (intros; congruence).
-        intros x. specialize (Hc' x). specialize (He x). unfold done_ks, open. cbn [done pending queue set_closed].
-        rewrite !ev_ks_app, !cnt_app, close_events_ks, cnt_app, Hp2. cbn [pend_ks q_ks map filter count_occ]. lia.
+        intros x. specialize (Hc' x). unfold done_ks, open. cbn [done pending queue set_closed].
+        rewrite !ev_ks_app, !cnt_app, pump_close_events_ks, !cnt_app, Hnew. cbn [pend_ks q_ks map filter count_occ]. lia.
       + constructor; cbn [submitted next_k closed pending queue done]; auto; try (intros; congruence).
         intros x. specialize (Hc' x). specialize (He x). unfold done_ks, open. cbn [done pending queue].
-        rewrite !ev_ks_app, !cnt_app, Hp2. lia.
+        unfold pend_ks at 1. rewrite map_app. fold (pend_ks (alive (now s) (pending s))).
+        fold (pend_ks (if (kind =? 1)%Z then [] else [(last_id s + 1, mk_entry k (now s + Z.max 0 t) [])])).
+        rewrite !ev_ks_app, !cnt_app, Hnew. lia.
     - (* Chunk *)
       destruct (closed s) eqn:Ecl; [exact HI|].
       destruct (find rid (pending s)) as [e|] eqn:Ef; [|exact HI].
@@ -348,35 +356,56 @@ Proof. unfold timeouts, gin. rewrite map_map. reflexivity. Qed.
 Lemma req_status_nz status : req_status status <> 0.
 Proof. unfold req_status. destruct (Z.eqb_spec status 0); lia. Qed.
 
-Definition open_list (drop : option Z) (p : list (Z * entry)) (q : list (Z * Z * Z)) : list (Z * bool) :=
-  map (fun x => (gk x, match drop with Some r => fst x =? r | None => false end)) (gin p)
-  ++ map (fun q => (qk q, false)) (filter has_cb q).
+(* the events of a close, entry by entry, against the specification's list of open requests *)
+Definition vexp (rs m : Z) : Z := if m =? 1 then 1 else if m =? 2 then 2 else rs.
+Definition good1 (rs : Z) (o : Z * Z) (e : event) : Prop :=
+  fst (fst e) = fst o /\ snd (fst e) = 1 /\ snd e = vexp rs (snd o).
+Definition good (rs : Z) := Forall2 (good1 rs).
 
-Lemma close_ok_events status drop st : st = None \/ st = Some (req_status status) ->
-  forall p q common, common = None \/ common = Some (req_status status) ->
-  close_ok (open_list drop p q) (close_events status drop p q) st common = true.
+Lemma good_close_ok rs st : rs <> 0 -> st = None \/ st = Some rs ->
+  forall open evs, good rs open evs -> forall common, common = None \/ common = Some rs ->
+  close_ok open evs st common = true.
 Proof.
-  intros Hst p q. unfold open_list, close_events, gin. rewrite map_map.
-  pose proof (req_status_nz status) as Hnz.
-  induction p as [|x p IH]; intros common Hco.
-  - cbn [map app]. revert common Hco. induction (filter has_cb q) as [|y l IHl]; intros common Hco; [reflexivity|].
-    cbn [map close_ok]. rewrite !Z.eqb_refl. cbn [andb].
-    destruct (Z.eqb_spec (req_status status) 0) as [E|_]; [contradiction|]. cbn [negb andb].
-    destruct Hst as [->| ->].
-    + destruct Hco as [->| ->]; [apply IHl; right; reflexivity|]. rewrite Z.eqb_refl. apply IHl. right; reflexivity.
-    + rewrite Z.eqb_refl. apply IHl. exact Hco.
-  - cbn [map app close_ok proj fst snd gk]. rewrite !Z.eqb_refl. cbn [andb].
-    destruct drop as [r|].
-    + destruct (fst x =? r).
-      * cbn [negb andb Z.eqb]. apply IH. exact Hco.
-      * destruct (Z.eqb_spec (req_status status) 0) as [E|_]; [contradiction|]. cbn [negb andb].
-        destruct Hst as [->| ->].
-        -- destruct Hco as [->| ->]; [apply IH; right; reflexivity|]. rewrite Z.eqb_refl. apply IH. right; reflexivity.
-        -- rewrite Z.eqb_refl. apply IH. exact Hco.
-    + destruct (Z.eqb_spec (req_status status) 0) as [E|_]; [contradiction|]. cbn [negb andb].
-      destruct Hst as [->| ->].
-      * destruct Hco as [->| ->]; [apply IH; right; reflexivity|]. rewrite Z.eqb_refl. apply IH. right; reflexivity.
-      * rewrite Z.eqb_refl. apply IH. exact Hco.
+  intros Hnz Hst open evs H. induction H as [|[k m] [[k' t] v] open evs [A [B C]] _ IH]; intros common Hco; [reflexivity|].
+  cbn in A, B, C. subst k' t v. cbn [close_ok]. rewrite !Z.eqb_refl. cbn [andb]. unfold vexp.
+  destruct (m =? 1); [cbn; apply IH; exact Hco|].
+  destruct (m =? 2); [cbn; apply IH; exact Hco|].
+  destruct (Z.eqb_spec rs 0) as [E|_]; [contradiction|]. cbn [negb andb].
+  destruct Hst as [->| ->].
+  - destruct Hco as [->| ->]; [apply IH; right; reflexivity|]. rewrite Z.eqb_refl. apply IH. right; reflexivity.
+  - rewrite Z.eqb_refl. apply IH. exact Hco.
+Qed.
+
+Lemma forall2_map {A B C} (R : B -> C -> Prop) (f : A -> B) (g : A -> C) l :
+  (forall x, R (f x) (g x)) -> Forall2 R (map f l) (map g l).
+Proof. intros H. induction l; cbn; constructor; auto. Qed.
+
+Lemma good_queue rs q : good rs (open_q q) (map (fun x => (qk x, 1, rs)) (filter has_cb q)).
+Proof. unfold good, open_q. apply forall2_map. intros x. repeat split. Qed.
+
+Definition drop_mode (drop : option Z) (x : Z * entry) : Z :=
+  match drop with Some r => if fst x =? r then 1 else 0 | None => 0 end.
+
+Lemma good_close status drop p q :
+  good (req_status status)
+       (map (fun x => (gk x, match drop with Some r => if fst x =? r then 1 else 0 | None => 0 end)) (gin p) ++ open_q q)
+       (close_events status drop p q).
+Proof.
+  unfold close_events. apply Forall2_app; [|apply good_queue].
+  unfold gin. rewrite map_map. apply forall2_map. intros x. unfold good1, vexp. cbn [fst snd proj gk].
+  repeat split. destruct drop as [r|]; [destruct (fst x =? r)|]; reflexivity.
+Qed.
+
+Lemma good_pump_close status nw p newl q :
+  good (req_status status)
+       (map (fun x => (gk x, if gexpired nw x then 2 else 0)) (gin p)
+        ++ map (fun x => (gk x, 0)) (gin newl) ++ open_q q)
+       (pump_close_events status nw p newl q).
+Proof.
+  unfold pump_close_events. apply Forall2_app.
+  - unfold gin. rewrite map_map. apply forall2_map. intros x. unfold good1, vexp. cbn [fst snd proj gk].
+    rewrite gexpired_proj. repeat split. destruct (expired nw x); reflexivity.
+  - apply (good_close status None newl q).
 Qed.
 
 (* merge_chunks only selects among the chunks it was given *)
@@ -439,6 +468,14 @@ Proof. induction a; cbn; [reflexivity|f_equal; assumption]. Qed.
 Lemma skipn_app_len {A} (a b : list A) : skipn (length a) (a ++ b) = b.
 Proof. induction a; cbn; [reflexivity|assumption]. Qed.
 
+Lemma close_ok_close status drop st p q g : g_in g = gin p -> g_q g = q ->
+  st = None \/ st = Some (req_status status) ->
+  close_ok (open_of g drop) (close_events status drop p q) st None = true.
+Proof.
+  intros Hin Hq Hst. unfold open_of. rewrite Hin, Hq.
+  apply (good_close_ok (req_status status)); [apply req_status_nz|exact Hst|apply good_close|left; reflexivity].
+Qed.
+
 Section Oracle.
   Variable mi mp : Z.
   Notation stepc := (step decode_parts mi mp).
@@ -478,19 +515,20 @@ Section Oracle.
       assert (Hid : (last_id s + 1 =? -1) = false) by (apply Z.eqb_neq; lia).
       assert (Hlt : (last_id s <? last_id s + 1) = true) by (apply Z.ltb_lt; lia).
       destruct (kind =? 2) eqn:E2.
-      + cbn [fst snd o_evs o_closed o_id closed set_closed]. rewrite Hid, Hlt.
-        rewrite firstn_app_len, skipn_app_len, ev_eqb_refl. cbn [andb].
-        assert (Hop : forall p2, open_of {| g_q := q'; g_in := gin p2; g_closed := false; g_now := now s; g_k := g_k g;
-                                           g_maxid := last_id s + 1 |} None = open_list None p2 q') by reflexivity.
-        destruct (kind =? 1).
-        * rewrite Hop, close_ok_events by auto. eexists; split; [reflexivity|]. rel_close HR.
-        * change (gin (alive (now s) (pending s)) ++ [(last_id s + 1, (k, now s + Z.max 0 t, []))])
-            with (gin (alive (now s) (pending s)) ++ gin [(last_id s + 1, mk_entry k (now s + Z.max 0 t) [])]).
-          unfold gin at 1 2. rewrite <- map_app. fold (gin (alive (now s) (pending s) ++ [(last_id s + 1, mk_entry k (now s + Z.max 0 t) [])])).
-          rewrite Hop, close_ok_events by auto. eexists; split; [reflexivity|]. rel_close HR.
+      + cbn [fst snd o_evs o_closed o_id closed set_closed]. rewrite Hid, Hlt. cbn [andb].
+        assert (Hg : close_ok (map (fun x => (gk x, if gexpired (now s) x then 2 else 0)) (gin (pending s))
+                               ++ (if kind =? 1 then [] else [(k, 0)]) ++ open_q q')
+                              (pump_close_events 11 (now s) (pending s)
+                                 (if kind =? 1 then [] else [(last_id s + 1, mk_entry k (now s + Z.max 0 t) [])]) q')
+                              None None = true).
+        { apply (good_close_ok (req_status 11)); [apply req_status_nz|left; reflexivity| |left; reflexivity].
+          pose proof (good_pump_close 11 (now s) (pending s)
+                        (if kind =? 1 then [] else [(last_id s + 1, mk_entry k (now s + Z.max 0 t) [])]) q') as G.
+          destruct (kind =? 1); exact G. }
+        rewrite Hg. eexists; split; [reflexivity|]. rel_close HR.
       + cbn [fst snd o_evs o_closed o_id closed]. rewrite Hid, Hlt, ev_eqb_refl. cbn [andb].
         eexists; split; [reflexivity|]. constructor; cbn [g_q g_in g_closed g_now g_k g_maxid queue pending closed now next_k last_id]; auto; try lia.
-        destruct (kind =? 1); [reflexivity|]. unfold gin. rewrite map_app. reflexivity.
+        destruct (kind =? 1); [rewrite app_nil_r; reflexivity|]. unfold gin. rewrite map_app. reflexivity.
     - (* Chunk *)
       rewrite Rcl. destruct (closed s) eqn:Ecl.
       { cbn [fst snd o_evs o_closed closed]. rewrite Ecl. cbn. eexists; split; [reflexivity|exact HR]. }
@@ -513,9 +551,7 @@ Section Oracle.
                         else None) = Some g' /\
                        Rel (set_closed s lr (last_id s) (close_events status (Some rid) (pending s) (queue s))) g' ).
           { intros lr status. cbn [closed set_closed].
-            assert (Hop : open_of g (Some rid) = open_list (Some rid) (pending s) (queue s))
-              by (unfold open_of, open_list; rewrite Rin, Rq; reflexivity).
-            rewrite Hop, close_ok_events by auto. cbn [andb].
+            rewrite (close_ok_close status (Some rid) None (pending s) (queue s) g Rin Rq) by (left; reflexivity). cbn [andb].
             eexists; split; [reflexivity|]. rel_close HR. }
           destruct (C12.Model.receive (last_recv s) chan (map to12 (merge (e_chunks e ++ [c])))) as [x|code|].
           -- destruct (decode_parts (merge (e_chunks e ++ [c]))) as [m|status] eqn:Ed.
@@ -533,9 +569,8 @@ Section Oracle.
       rewrite Rcl. destruct (closed s) eqn:Ecl.
       { cbn [fst snd o_evs o_closed closed]. rewrite Ecl. cbn. eexists; split; [reflexivity|exact HR]. }
       cbn [fst snd o_evs o_closed closed set_closed].
-      assert (Hop : open_of g None = open_list None (pending s) (queue s))
-        by (unfold open_of, open_list; rewrite Rin, Rq; reflexivity).
-      change (Some 10) with (Some (req_status 10)). rewrite Hop, close_ok_events by auto. cbn [andb].
+      change (Some 10) with (Some (req_status 10)).
+      rewrite (close_ok_close 10 None _ (pending s) (queue s) g Rin Rq) by (right; reflexivity). cbn [andb].
       eexists; split; [reflexivity|]. rel_close HR.
     - (* ErrMsg *)
       rewrite Rcl. destruct (closed s) eqn:Ecl.
@@ -543,13 +578,11 @@ Section Oracle.
       destruct (cls =? 0) eqn:E0.
       { cbn [fst snd o_evs o_closed closed]. rewrite Ecl. cbn. eexists; split; [reflexivity|exact HR]. }
       cbn [fst snd o_evs o_closed closed set_closed].
-      assert (Hop : open_of g None = open_list None (pending s) (queue s))
-        by (unfold open_of, open_list; rewrite Rin, Rq; reflexivity).
       set (st := if cls =? 98 then 10 else cls).
       assert (Hrs : st = req_status st).
       { unfold req_status, st. destruct (cls =? 98); [reflexivity|]. rewrite E0. reflexivity. }
       replace (Some st) with (Some (req_status st)) by (rewrite <- Hrs; reflexivity).
-      rewrite Hop, close_ok_events by auto. cbn [andb].
+      rewrite (close_ok_close st None _ (pending s) (queue s) g Rin Rq) by (right; reflexivity). cbn [andb].
       eexists; split; [reflexivity|]. rel_close HR.
     - (* Advance *)
       cbn [fst snd o_evs o_closed closed]. rewrite Rcl, eqb_reflx. cbn.
@@ -558,9 +591,7 @@ Section Oracle.
       rewrite Rcl. destruct (closed s) eqn:Ecl.
       { cbn [fst snd o_evs o_closed closed]. rewrite Ecl. cbn. eexists; split; [reflexivity|exact HR]. }
       cbn [fst snd o_evs o_closed closed set_closed].
-      assert (Hop : open_of g None = open_list None (pending s) (queue s))
-        by (unfold open_of, open_list; rewrite Rin, Rq; reflexivity).
-      rewrite Hop, close_ok_events by auto. cbn [andb].
+      rewrite (close_ok_close status None _ (pending s) (queue s) g Rin Rq) by (right; reflexivity). cbn [andb].
       eexists; split; [reflexivity|]. rel_close HR.
   Qed.
 End Oracle.
@@ -730,10 +761,9 @@ Section Facts2.
       destruct (queue s) as [|[[k t] kind] q']; [constructor; cbn; assumption|].
       destruct (kind =? 2); cbn [fst]; [apply Hnil|].
       constructor; cbn [pending last_id].
-      + destruct (kind =? 1); [apply (rid_ok_mono (last_id s)); [lia|exact Hok1]|].
-        apply Forall_app. split; [apply (rid_ok_mono (last_id s)); [lia|exact Hok1]|].
-        constructor; [|constructor]. split; cbn; [lia|constructor].
-      + destruct (kind =? 1); [exact Hn1|]. apply (nodup_fst_snoc (last_id s)); [exact Hok1|exact Hn1|lia].
+      + apply Forall_app. split; [apply (rid_ok_mono (last_id s)); [lia|exact Hok1]|].
+        destruct (kind =? 1); [constructor|]. constructor; [|constructor]. split; cbn; [lia|constructor].
+      + destruct (kind =? 1); [rewrite app_nil_r; exact Hn1|]. apply (nodup_fst_snoc (last_id s)); [exact Hok1|exact Hn1|lia].
     - destruct (closed s); [exact HJ|].
       destruct (find rid (pending s)) as [e|] eqn:Ef; [|exact HJ].
       assert (Hrm : forall lr evs, Inv2 (with_pending s (remove rid (pending s)) lr evs)).
@@ -769,6 +799,12 @@ Section Facts2.
     unfold close_events. intros H. apply in_app_or in H as [H|H]; apply in_map_iff in H as (x & Hx & _); inversion Hx; reflexivity.
   Qed.
 
+  Lemma pump_close_events_tag status nw p newl q k t v : In (k, t, v) (pump_close_events status nw p newl q) -> t = 1.
+  Proof.
+    unfold pump_close_events. intros H. apply in_app_or in H as [H|H]; [|eapply close_events_tag; exact H].
+    apply in_map_iff in H as (x & Hx & _); inversion Hx; reflexivity.
+  Qed.
+
   Lemma response_provenance s o k m : Inv2 s -> In (k, 0, m) (snd (step s o)) ->
     exists rid sq kind mid part n e,
       o = Chunk rid sq kind mid part n /\ find rid (pending s) = Some e /\ e_k e = k /\
@@ -783,7 +819,7 @@ Section Facts2.
       destruct (max_inflight >? Z.of_nat (length (alive (now s) (pending s)))); [|cbn in Hin; apply timeouts_tag in Hin; discriminate].
       destruct (queue s) as [|[[k0 t] kind] q']; [cbn in Hin; apply timeouts_tag in Hin; discriminate|].
       destruct (kind =? 2); cbn [snd] in Hin; [|apply timeouts_tag in Hin; discriminate].
-      apply in_app_or in Hin as [Hin|Hin]; [apply timeouts_tag in Hin|apply close_events_tag in Hin]; discriminate.
+      apply pump_close_events_tag in Hin. discriminate.
     - destruct (closed s); [destruct Hin|].
       destruct (find rid (pending s)) as [e|] eqn:Ef; [|destruct Hin].
       destruct (kind =? 0).
@@ -816,7 +852,7 @@ Section Facts2.
       destruct (max_inflight >? Z.of_nat (length (alive (now s) (pending s)))); [|cbn; auto].
       destruct (queue s) as [|[[k t] kind] q']; [cbn; auto|].
       destruct (kind =? 2); cbn [fst set_closed last_id pending find]; [split; [lia|reflexivity]|].
-      split; [lia|]. destruct (kind =? 1); [exact Hf1|]. apply find_app_none; [exact Hf1|lia].
+      split; [lia|]. destruct (kind =? 1); [rewrite app_nil_r; exact Hf1|]. apply find_app_none; [exact Hf1|lia].
     - destruct (closed s); [auto|]. destruct (find r (pending s)) as [e|]; [|auto].
       destruct (kind =? 0).
       { destruct ((0 <? max_pending) && (max_pending <? Z.of_nat (length (e_chunks e ++ [mk_chunk r sq kind mid part n]))));
@@ -870,7 +906,7 @@ Section Facts2.
       destruct (max_inflight >? Z.of_nat (length (alive (now s) (pending s)))); [|cbn in *; split; [lia|auto]].
       destruct (queue s) as [|[[k t1] kind] q']; [cbn in *; split; [lia|auto]|].
       destruct (kind =? 2); cbn [fst snd set_closed last_id pending find] in *; [split; [lia|reflexivity]|].
-      split; [lia|]. destruct (kind =? 1); [auto|]. apply find_app_none; [auto|lia].
+      split; [lia|]. destruct (kind =? 1); [rewrite app_nil_r; auto|]. apply find_app_none; [auto|lia].
     - destruct (closed s); [destruct Hev|]. destruct (find r (pending s)) as [e'|] eqn:Ef; [|destruct Hev].
       assert (Hsame : e_k e' = e_k e -> find rid (remove r (pending s)) = None).
       { intros Hk. apply find_in in Ef.
@@ -918,13 +954,20 @@ Section Facts2.
       unfold expired. cbn. apply Z.leb_le. exact Hd.
   Qed.
 
-  Lemma pump_events s : closed s = false ->
-    exists rest, snd (step s Pump) = timeouts (now s) (pending s) ++ rest.
+  Lemma pump_timeouts s k : closed s = false ->
+    (In (k, 1, 2) (snd (step s Pump)) <-> In (k, 1, 2) (timeouts (now s) (pending s))).
   Proof.
     intros Hc. cbn [step]. rewrite Hc.
-    destruct (max_inflight >? Z.of_nat (length (alive (now s) (pending s)))); [|exists []; cbn; rewrite app_nil_r; reflexivity].
-    destruct (queue s) as [|[[k t] kind] q']; [exists []; cbn; rewrite app_nil_r; reflexivity|].
-    destruct (kind =? 2); cbn [snd]; [eexists; reflexivity|exists []; rewrite app_nil_r; reflexivity].
+    destruct (max_inflight >? Z.of_nat (length (alive (now s) (pending s)))); [|reflexivity].
+    destruct (queue s) as [|[[k0 t] kind] q']; [reflexivity|].
+    destruct (kind =? 2); cbn [snd]; [|reflexivity].
+    unfold pump_close_events, timeouts. rewrite in_app_iff, !in_map_iff. split.
+    - intros [(x & Hx & Hin)|Hin].
+      + exists x. destruct (expired (now s) x) eqn:E; [|inversion Hx].
+        split; [exact Hx|]. apply filter_In. split; assumption.
+      + exfalso. unfold close_events in Hin. apply in_app_or in Hin as [Hin|Hin];
+          apply in_map_iff in Hin as (x & Hx & _); inversion Hx.
+    - intros (x & Hx & Hin). apply filter_In in Hin as [Hin E]. left. exists x. rewrite E. split; assumption.
   Qed.
 End Facts2.
 
